@@ -56,9 +56,11 @@ def process_signature(app, what, name, obj, options,
         obj = _util.safe_get(obj, object(), type(parent))
     try:
         sig = specifiers.signature(obj).evaluated()
-    except (TypeError, ValueError):
+    except Exception:
         # inspect.signature raises ValueError if obj is callable but it can't
-        # determine a signature, eg. built-in objects
+        # determine a signature, eg. built-in objects. Evaluating postponed
+        # annotations can raise anything, eg. NameError for names that are
+        # only imported under typing.TYPE_CHECKING
         return sig, return_annotation
     ret_annot = sig.return_annotation
     if ret_annot != sig.empty:
